@@ -96,9 +96,37 @@ func VerifC11_SyncTail() {
 		Sync:     sync, Finalize: fin,
 	})
 	pc.Snapshot([]*unstructured.Unstructured{cached}, nil, nil)
+	// "the status write is attempted even when reconciling some children failed":
+	// optionally the first write to a child (the create of "a") is answered with a 500
+	childFails := rt.Bool("the-child-write-fails")
+	if childFails {
+		w.Srv.ArmFault(0, env.FaultInternal, "configmaps", false)
+	}
 
 	err := pc.syncParentObject(cached)
 	rt.Observe("err", err != nil)
+	if childFails {
+		failed, statusTried := false, false
+		for _, r := range w.Srv.Log {
+			if r.Resource == "configmaps" && r.Err != nil {
+				failed = true
+			}
+			if r.Resource == "things" && r.Sub == "status" {
+				statusTried = true
+			}
+		}
+		if failed {
+			// (children are managed for a live parent and for one being finalized alike)
+			rt.Cover("tail/child-write-failed")
+			if liveKind <= 1 {
+				// (a parent that is gone or was replaced has nothing left to report to)
+				rt.Assert(err != nil, "tail/child-failure-not-reported")
+			}
+			if liveKind == 0 {
+				rt.Assert(statusTried, "tail/status-write-skipped-after-child-failure")
+			}
+		}
+	}
 
 	// the parent that was sent to the hook (if any hook was called)
 	var sent *unstructured.Unstructured
